@@ -802,16 +802,18 @@ func (sd *SimDrive) Init(c *Config, s *simbox.Simbox, vm *VM) error {
 					if ipos == -1 {
 						ipos = len(inj)
 						inj = append(inj, loc)
+					}
 
-						re := regexp.MustCompile("^i(?P<input>[0-9]+)$")
-						if re.MatchString(rule.Object) {
-							inIdxS := re.ReplaceAllString(rule.Object, "${input}")
-							inIdx, err := strconv.Atoi(inIdxS)
-							if err != nil {
-								return err
-							}
-							needValid[ipos] = inIdx
+					// An input set at an absolute tick needs its valid raised, also when the location was
+					// already made injectable by an earlier (periodic) rule
+					re := regexp.MustCompile("^i(?P<input>[0-9]+)$")
+					if re.MatchString(rule.Object) {
+						inIdxS := re.ReplaceAllString(rule.Object, "${input}")
+						inIdx, err := strconv.Atoi(inIdxS)
+						if err != nil {
+							return err
 						}
+						needValid[ipos] = inIdx
 					}
 
 					if actOnTick, ok := absset[rule.Tick]; ok {
